@@ -1,13 +1,13 @@
 SPECIFICATION Spec
 CONSTANTS
   Record = TRUE
-  Scripts <- ScriptsX
-  FaultChoices <- ExpFaults
+  Scripts <- ScriptsXq
+  FaultChoices <- ExpFaultsQ
 CONSTRAINT ExportC
 INVARIANT EachOnce
 INVARIANT ReturnsAfterAll
 INVARIANT EventsOnceInOrder
-INVARIANT OneAtATime
+INVARIANT StreamFields
 INVARIANT BrokenReported
 INVARIANT AbortTellsAll
 CHECK_DEADLOCK TRUE
